@@ -188,6 +188,31 @@ def moduli_lines(exe, env_extra=None):
         return []
 
 
+def inflight_failures(err, label, ops=None, rename=None):
+    """the harness died inside a creator (sanitizer report, assert of the library, signal): its death callback wrote
+    `INFLIGHT <op> w n nm via params… script-(words64|bytes) <#units> <units…> served-requests …` = the input of the call
+    that did not return.  That call is the failing input; the reason is the first report line of the sanitizer / assert."""
+    out = []
+    why = [l.strip() for l in err.splitlines() if "runtime error:" in l or "ERROR: AddressSanitizer" in l or "Assertion" in l
+           or "ERROR: LeakSanitizer" in l or "ERROR: UndefinedBehaviorSanitizer" in l]
+    for l in err.splitlines():
+        if not l.startswith("INFLIGHT "):
+            continue
+        line = l[len("INFLIGHT "):]
+        op = line.split(" ", 1)[0]
+        if ops is not None and op not in ops and not (op == "hwt" and "hwtw" in ops):
+            op_in_scope = False
+        else:
+            op_in_scope = True
+        t = line.split()
+        what = "the process died inside this call (%s); op w n nm via params…, then the scripted random tape" % (why[0][:300] if why else "no report line")
+        if not op_in_scope:
+            what += " [creator outside this property's op set: reported because the stream was cut short by it]"
+        out.append({"kind": "runtime", "stream": label, "line": (line if len(line) < 4000 else line[:4000] + " …") + " => (no return)",
+                    "what": what, "call": " ".join(t[:6])})
+    return out
+
+
 def run(ctx, res, ops=None, want=(), env_extra=None, rename=None):
     """rename: {op: op'} applied to the lines before they reach the driver (C09 judges the fixed-weight lines with
     ITS statement only: hwt -> hwt9, hwtw -> hwtw9; the position law belongs to C12)"""
@@ -210,6 +235,9 @@ def run(ctx, res, ops=None, want=(), env_extra=None, rename=None):
             return True
 
         h = cl.run_stream(res, "samplers/" + b, exe, env=env_extra, line_filter=flt, trivial=lambda lhs: False)
+        if h is not None and h.returncode != 0:
+            ctx.setdefault("failing_inputs", [])
+            ctx["failing_inputs"] += inflight_failures(h.stderr, "samplers/" + b, ops, rename)
         if h is not None and want:
             plines = moduli_lines(exe, env_extra)
             if not plines:
